@@ -74,6 +74,13 @@ def rw_records(m, rid, cls):
     out.append(rec)
     if rec["exc"]:
         return out
+    # history: the same object written a second time must give a document denoting the same chart
+    rec2 = {"id": rid + "/write2", "op": "write", "cls": cls + ".again", "exc": "", "doc": {}, "chart": rec["chart"]}
+    try:
+        rec2["doc"] = tokens(m.write())
+    except Exception as e:
+        rec2["exc"] = exc_name(e)
+    out.append(rec2)
     try:
         gens = []
         cur = text
